@@ -130,6 +130,22 @@ def gen_cases(rng, tier):
     for b in BUILT:
         for u in USES:
             add("transition", u.replace("%s", b))
+    # stream 1d: literal shapes the compiler must reject politely, and library functions at the edges of their domain
+    SHAPES = ["{|a, b| (1, 2), (3)}", "{|a, b| (1)}", "{|a, b| (1, 2, 3), (4, 5)}", "{|a, b| (1, 2), (3, 4, 5)}", "{|a| (1), ()}", "{|a, b| }", "{|| (1)}", "{|a, a| (1, 2)}",
+              "{|a, b| (1, 2), (3), (4, 5)}", "{|@, @value| (1, 2), (1)}", "{|@, @item| (0, 1), (1)}", "{1: 2, 1: 3}", "{(a: 1): 2, (a: 1): 3}", "(a: 1, a: 2)", "[1, , ]", "[, ]", "<<>>", "<<256>>", "<<-1>>",
+              "<<1.5>>", "<<\"a\", {}>>", "$\"${1:d}\"", "$\"${[1,2]::, }\"", "$\"${[1,2]:02d:,}\"", "$\"${1:q}\"", "$\"${}\"", "$\"${1::}\"", "$\"${{}::x:y}\"", "$\"${\"a\":5.5s}\"",
+              "(1\\2\\[3])", "(0.5\\[1])", "(\"a\"\\[1])", "%1", "1 -> \\[x, x] x", "let [] = 1; 2", "let () = []; 2", "cond {}", "cond 1 {}", "\\x \\x x"]
+    for sh in SHAPES:
+        add("shape", sh)
+    NONASCII = ["\"\u00e9\u00e9b\"", "\"b\u00e9\"", "\"\U0001F600x\"", "\"\"", "\"abc\"", "(2\\\"ab\")", "(\"abc\" without (@: 1, @char: 98))"]
+    LIBCALLS = ["//re.compile(\"b\").match(%s)", "//re.compile(\"(.)(.)\").match(%s)", "//re.compile(\".*\").match(%s)", "//re.compile(\"(\").match(%s)", "//re.compile(\"x*\").sub(\"y\", %s)",
+                "//re.compile(\"\u00e9\").subf(\\m m, %s)", "//str.upper(%s)", "//str.lower(%s)", "//str.title(%s)", "//str.repr(%s)", "//seq.split(\"\", %s)", "//seq.split(%s, %s)",
+                "//seq.sub(\"\", \"x\", %s)", "//seq.contains(%s, %s)", "//seq.has_suffix(\"\u00e9\", %s)", "//seq.trim_prefix(%s, %s)", "//seq.repeat(3, %s)", "//seq.join(%s, [%s, %s])",
+                "//str.expand(\"\", %s, \"\", \"\")", "//encoding.json.decode(%s)", "//encoding.yaml.decode(%s)", "//encoding.csv.decode(%s)", "//encoding.json.encode(%s)", "//bits.mask({%s count})",
+                "//fmt.pretty(%s)", "//eval.value(%s)", "//archive.tar.tar({%s: %s})", "//encoding.bytes(%s)", "//unicode.utf8.encode(%s)", "//seq.concat([%s, %s])", "%s orderby .", "//str.lower(%s) >> . + 1"]
+    for call in LIBCALLS:
+        for sarg in (NONASCII if tier != "quick" else rng.sample(NONASCII, 3)):
+            add("libcall", call.replace("%s", sarg))
     # stream 2: malformed source text
     n2 = 100 if tier == "quick" else 700
     for _ in range(n2):
@@ -208,7 +224,7 @@ def main(tier, seed, replay=None):
     nontriv = len(set(c["src"] for c in cases if (outs.get(c["id"]) or {}).get("st") in ("ok", "err")))
     step = max(1, len(cases) // 8)
     run.cov.update({"evaluations": len(cases), "distinct_nontrivial": nontriv,
-                    "rule": "three streams through syntax.EvaluateExpr under recover() and a wall-clock watchdog (a wedged process is killed and restarted): (1) well-formed but ill-typed programs: every binary, comparison, unary and postfix operator, call, ?:, dot, nest, let/cond patterns and standard-library functions over operands of every kind and representation incl. functions, natives, @neg wrappers, huge/inf/nan numbers; (1b) well-typed operations at the edges of a representation (with/without/set operators/membership/calls at indices just outside, at and just inside both ends of strings, byte arrays, arrays and dicts with and without offsets and holes, huge and fractional indices, out-of-range characters and bytes) and callbacks that fail part-way through a collection (where, =>, >>, orderby, rank, :>, >>> over relations, sets, arrays, dicts and strings of 3-4 members); (1c) an enumerated product of 16 values that have just changed representation (multi-valued dict back to single-valued, sparse array back to dense, filled string hole, removed last item, ...) x 22 consumers (enumeration, ordering, merge, //tuple, join, count, hashing, equality, >>, where, ++, call, set operators, rank, patterns, JSON); (2) malformed source: token soup over the grammar's terminals, truncated/garbled well-formed literals, raw bytes; (3) the committed witness of every open finding; a failure signature is the panic site (package:function of the first arr-ai/arrai frame), 'crash' or 'hang'; distinct non-trivial = distinct sources ending in a value or an ordinary error",
+                    "rule": "three streams through syntax.EvaluateExpr under recover() and a wall-clock watchdog (a wedged process is killed and restarted): (1) well-formed but ill-typed programs: every binary, comparison, unary and postfix operator, call, ?:, dot, nest, let/cond patterns and standard-library functions over operands of every kind and representation incl. functions, natives, @neg wrappers, huge/inf/nan numbers; (1b) well-typed operations at the edges of a representation (with/without/set operators/membership/calls at indices just outside, at and just inside both ends of strings, byte arrays, arrays and dicts with and without offsets and holes, huge and fractional indices, out-of-range characters and bytes) and callbacks that fail part-way through a collection (where, =>, >>, orderby, rank, :>, >>> over relations, sets, arrays, dicts and strings of 3-4 members); (1c) an enumerated product of 16 values that have just changed representation (multi-valued dict back to single-valued, sparse array back to dense, filled string hole, removed last item, ...) x 22 consumers (enumeration, ordering, merge, //tuple, join, count, hashing, equality, >>, where, ++, call, set operators, rank, patterns, JSON); (1d) 39 literal shapes the compiler must reject politely (relation literals with a narrow or wide row in any position, repeated headings and keys, odd byte-array items, string templates with odd format controls, odd offsets and patterns) and 32 library calls (//re, //str, //seq, //encoding, //bits, //fmt, //eval, //archive, //unicode) on non-ASCII, empty, offset and sparse strings; (2) malformed source: token soup over the grammar's terminals, truncated/garbled well-formed literals, raw bytes; (3) the committed witness of every open finding; a failure signature is the panic site (package:function of the first arr-ai/arrai frame), 'crash' or 'hang'; distinct non-trivial = distinct sources ending in a value or an ordinary error",
                     "samples": [cases[i]["src"][:120] for i in range(0, len(cases), step)][:8],
                     "status_histogram": hist, "stream_histogram": streams, "failure_signatures": sigs, "exhaustive": False})
     run.assumptions = ["the host-level recover of CLI/shell/server is not exercised; the check calls syntax.EvaluateExpr directly"]
